@@ -195,76 +195,103 @@ def nestedLinks (fs : PStmt) (reg : List Nested) (src : Nested) : Str :=
 def lastIndexOf (pat s : Str) : Option Nat :=
   ((List.range (s.length + 1)).reverse.find? fun i => isPrefix pat (s.drop i))
 
+/-- one value (leaf) of the chosen alternative written into the row: text with shared text,
+    private nodes, annotation -/
+def leafCell (o : Opts) (stmtId : Str) (col : Column) (ci : Nat) (v : LeafV) (t : Str) (priv : List PNode)
+    (row : Row) (reg : List Nested) : Row × List Nested :=
+  let left := stringify v.esl
+  let right := let r := stringify v.esr; if r.isEmpty then [] else ' ' :: r
+  let cur := row.get v.comp
+  let (val, skip) :=
+    if !left.isEmpty then
+      if !cur.isEmpty && isSuffix left cur then (' ' :: t ++ right, true)
+      else (left ++ ' ' :: t ++ right, false)
+    else (t ++ right, false)
+  let valS := adjust o.gs val
+  let row := row.set v.comp (if cur.isEmpty then valS else cur ++ (if skip then [] else [',']) ++ valS)
+  let pr := addPrivate o stmtId [col.field, ci] row reg priv 0
+  let row := pr.1
+  let row :=
+    if o.ann && annNonEmpty v.eann then
+      let k := v.comp ++ annSuffix
+      row.set k (appendCell (row.get k) [','] (adjust o.gs (v.eann.getD [])))
+    else row
+  (row, pr.2)
+
+/-- one nested statement of a complex field: its id (IG Extended, registering it) or its flat
+    text (IG Core) appended to the reference cell -/
+def nestedEntry (o : Opts) (stmtId : Str) (col : Column) (key : Str)
+    (entries : List (PNode × Link.NPath × Option Str)) (st : Row × List Nested) (ei : Nat) : Row × List Nested :=
+  let (row, reg) := st
+  let (en, ep, epar) := entries.getD ei (PNode.empty, [], none)
+  let last : Bool := ei + 1 == entries.length
+  let cur := row.get key
+  let cur := if !cur.isEmpty && !isSuffix (str "] ") cur then cur ++ [','] else cur
+  if o.ext then
+    let (reg', id) := register reg stmtId (col.field :: ep) en col.field ep
+    (row.set key (cur ++ id), reg')
+  else
+    let cell := cur ++ adjust false (flatNode 64 en)
+    let cell := match last, epar with
+      | false, some op => cell ++ ' ' :: '[' :: op ++ ']' :: [' ']
+      | _, _ => cell
+    (row.set key cell, reg)
+
+/-- the nested statement(s) of a complex field: one entry per statement leaf of the field's tree -/
+def nestedCell (o : Opts) (stmtId : Str) (col : Column) (v : LeafV) (n : PNode) (row : Row) (reg : List Nested) :
+    Row × List Nested :=
+  let entries := stmtLeaves n [] none
+  let key := v.comp ++ refSuffix
+  (List.range entries.length).foldl (nestedEntry o stmtId col key entries) (row, reg)
+
+/-- one component column of one row -/
+def cellStep (o : Opts) (stmtId : Str) (cols : List Column) (perm : List LeafV)
+    (refs : List (List (List Bool × List Refs.Ref))) (st : Row × List Nested × List Str) (ci : Nat) :
+    Row × List Nested × List Str :=
+  let col := cols.getD ci default
+  let v := perm.getD ci default
+  let rr : Row × List Nested :=
+    match v.node with
+    | .leaf t _ _ _ priv => leafCell o stmtId col ci v t priv st.1 st.2.1
+    | .empty => (st.1, st.2.1)
+    | n => nestedCell o stmtId col v n st.1 st.2.1
+  (rr.1, rr.2, st.2.2 ++ compLinks stmtId col v (refs.getD ci []))
+
+/-- id of the `ri`-th atomic statement -/
+def subId (stmtId : Str) (many : Bool) (ri : Nat) : Str :=
+  if many then stmtId ++ '.' :: natStr (ri + 1) else stmtId
+
+/-- one atomic statement (row) -/
+def rowStep (o : Opts) (stmtId : Str) (stmtAnn : Option Str) (stmtLinks : Str) (cols : List Column)
+    (perms : List (List LeafV)) (refs : List (List (List Bool × List Refs.Ref)))
+    (acc : List Row × List Nested) (ri : Nat) : List Row × List Nested :=
+  let perm := perms.getD ri []
+  let row0 : Row := [(kID, subId stmtId (perms.length > 1) ri)]
+  let row0 := match o.ann, stmtAnn with
+    | true, some a => row0.set kStmtAnn (adjust o.gs a)
+    | _, _ => row0
+  let st := (List.range cols.length).foldl (cellStep o stmtId cols perm refs) (row0, acc.2, [])
+  let row := if st.2.2.isEmpty then st.1 else st.1.set kLinkComps (joinWith [';'] st.2.2)
+  let row := if stmtLinks.isEmpty then row else row.set kLinkStmts stmtLinks
+  (acc.1 ++ [row], st.2.1)
+
+/-- the alternatives of the statement's components, one list per component column -/
+def permsOf (cols : List Column) : List (List LeafV) := (Odo.generate (cols.map (·.alts))).getD []
+
+/-- the statement's own rows and the registry of the nested statements they refer to -/
+def ownRows (o : Opts) (fs : PStmt) (stmtId : Str) (stmtAnn : Option Str) (stmtLinks : Str) : List Row × List Nested :=
+  let cols := columnsOf fs
+  let perms := permsOf cols
+  let refs := (List.range cols.length).map fun ci => columnRefs perms ci (cols.getD ci default)
+  (List.range perms.length).foldl (rowStep o stmtId stmtAnn stmtLinks cols perms refs) ([], [])
+
 /-- `GenerateTabularOutputFromParsedStatement` for one statement (fields `fs`), including the
-    recursively exported nested statements. `stmtAnn` = statement-level annotations (`none` = nil). -/
+    row groups of its nested statements (IG Extended), which are exported after the statement's
+    own rows, in registration order -/
 def stmtRows (o : Opts) : Nat → PStmt → Str → Option Str → Str → List Row
   | 0, _, _, _, _ => []
   | fuel + 1, fs, stmtId, stmtAnn, stmtLinks =>
-    let cols := columnsOf fs
-    let perms : List (List LeafV) := (Odo.generate (cols.map (·.alts))).getD []
-    let refs := (List.range cols.length).map fun ci => columnRefs perms ci (cols.getD ci default)
-    let many := perms.length > 1
-    -- fold over rows, threading the nested-statement registry
-    let step := fun (acc : List Row × List Nested) (ri : Nat) =>
-      let perm := perms.getD ri []
-      let subId := if many then stmtId ++ '.' :: natStr (ri + 1) else stmtId
-      let row0 : Row := [(kID, subId)]
-      let row0 := match o.ann, stmtAnn with
-        | true, some a => row0.set kStmtAnn (adjust o.gs a)
-        | _, _ => row0
-      let cstep := fun (st : Row × List Nested × List Str) (ci : Nat) =>
-        let (row, reg, links) := st
-        let col := cols.getD ci default
-        let v := perm.getD ci default
-        let (row, reg) :=
-          match v.node with
-          | .leaf t _ _ _ priv =>
-            let left := stringify v.esl
-            let right := let r := stringify v.esr; if r.isEmpty then [] else ' ' :: r
-            let cur := row.get v.comp
-            let (val, skip) :=
-              if !left.isEmpty then
-                if !cur.isEmpty && isSuffix left cur then (' ' :: t ++ right, true)
-                else (left ++ ' ' :: t ++ right, false)
-              else (t ++ right, false)
-            let valS := adjust o.gs val
-            let row := row.set v.comp (if cur.isEmpty then valS else cur ++ (if skip then [] else [',']) ++ valS)
-            let (row, reg) := addPrivate o stmtId [col.field, ci] row reg priv 0
-            let row :=
-              if o.ann && annNonEmpty v.eann then
-                let k := v.comp ++ annSuffix
-                row.set k (appendCell (row.get k) [','] (adjust o.gs (v.eann.getD [])))
-              else row
-            (row, reg)
-          | .empty => (row, reg)
-          | n =>
-            -- nested statement(s): one entry per statement leaf of the field's tree
-            let entries := stmtLeaves n [] none
-            let key := v.comp ++ refSuffix
-            let estep := fun (st : Row × List Nested) (ei : Nat) =>
-              let (row, reg) := st
-              let (en, ep, epar) := entries.getD ei (PNode.empty, [], none)
-              let last : Bool := ei + 1 == entries.length
-              let cur := row.get key
-              let cur := if !cur.isEmpty && !isSuffix (str "] ") cur then cur ++ [','] else cur
-              if o.ext then
-                let (reg', id) := register reg stmtId (col.field :: ep) en col.field ep
-                (row.set key (cur ++ id), reg')
-              else
-                let cell := cur ++ adjust false (flatNode 64 en)
-                let cell := match last, epar with
-                  | false, some op => cell ++ ' ' :: '[' :: op ++ ']' :: [' ']
-                  | _, _ => cell
-                (row.set key cell, reg)
-            (List.range entries.length).foldl estep (row, reg)
-        let links := links ++ compLinks stmtId col v (refs.getD ci [])
-        (row, reg, links)
-      let (row, reg, links) := (List.range cols.length).foldl cstep (row0, acc.2, [])
-      let row := if links.isEmpty then row else row.set kLinkComps (joinWith [';'] links)
-      let row := if stmtLinks.isEmpty then row else row.set kLinkStmts stmtLinks
-      (acc.1 ++ [row], reg)
-    let (rows, reg) := (List.range perms.length).foldl step ([], [])
-    -- nested statements are exported after the statement's own rows, in registration order
+    let (rows, reg) := ownRows o fs stmtId stmtAnn stmtLinks
     let nestedRows := reg.flatMap fun ns =>
       let (nfs, nann) : PStmt × Option Str := match ns.node with
         | .stmt m f => (f, m.ann)
